@@ -72,7 +72,29 @@ def run(binary, test, seconds, rundir, statsfile, procs):
     if fails:
         return 1  # the driver reports the record as the violation
     if saved:
-        # the fuzzer saved a failing input but no record was written (the process died before the property could): keep the input
+        # The fuzzer saved an input but the property wrote no record: the worker died or did not answer the coordinator.
+        # Go's coordinator also says so ("fuzzing process hung or terminated unexpectedly") when one execution exceeds its
+        # 10 s hang limit, which a loaded machine can cause on its own.  A wall-clock limit is no correctness signal: the
+        # saved input is executed again, alone, with a generous limit; only if that run fails (a record is written, the
+        # process dies, or it does not return within 10 minutes) is the input reported.
+        env2 = dict(env)
+        cmd2 = [binary, "-test.run", "^FuzzProp$", "-test.timeout", "0"]
+        try:
+            p2 = subprocess.run(cmd2, cwd=rundir, env=env2, capture_output=True, text=True, errors="replace", timeout=600)
+            rc2, out2 = p2.returncode, p2.stdout + p2.stderr
+        except subprocess.TimeoutExpired:
+            rc2, out2 = -1, "re-execution of the saved input did not return within 600 s"
+        fails = glob.glob(os.path.join(rundir, "fail-*.json")) + glob.glob(os.path.join(rundir, "journal-*.json"))
+        if rc2 == 0 and not fails:
+            # the campaign ended early; what it explored until then stands (the executions are counted in the statistics)
+            sys.stdout.write("\nGOFUZZ: a worker died or was declared hung on an input that passes when executed again alone (engine / machine load): campaign ended early, no finding\n")
+            stats["info"]["gofuzz:" + test] += "; the campaign ended early: the coordinator declared a worker hung or dead on an input that passes when executed again alone"
+            with open(statsfile, "w") as f:
+                json.dump(stats, f)
+            return 0
+        sys.stdout.write("\nGOFUZZ: the saved input fails again when executed alone (exit %d):\n%s\n" % (rc2, out2[-3000:]))
+        if fails:
+            return 1
         dst = os.path.join(rundir, "artefact-gofuzz-%s-%s" % (test, os.path.basename(saved[0])))
         shutil.copy(saved[0], dst)
         return 1
